@@ -109,6 +109,10 @@ def check_ieq(case):
         pass
     from pgmpy.models import BayesianNetwork
 
+    # the same graph built with another edge insertion order (parents of a collider then come in another order) is I-equivalent to itself
+    gR = _mk_dag(nodes, list(reversed(A)))
+    if gA.is_iequivalent(gR) is not True or gR.is_iequivalent(gA) is not True:
+        return {"key": "is_iequivalent:false-negative", "what": f"A={A}: not reported I-equivalent to the same graph built in reversed edge order"}
     deferred = None  # the class seen on the unchanged tree is reported only if nothing else fails for this A
     for j, (B, skB, vsB) in enumerate(others):
         gB = _mk_dag(nodes, B, BayesianNetwork if j % 5 == 3 else None)
@@ -339,6 +343,12 @@ def check_entails(case):
     # multi-statement entailment: all of the closure / closure + one outsider
     if not ind.entails(_mk_ind([[list(x) for x in _oriented(c)[0]] for c in sorted(got_cl, key=_fmt)], 1)):
         return {"key": "entails:inconsistent-with-closure", "what": "does not entail its own closure"}
+    # the same members of the closure listed twice and in both orientations: more assertions than the closure holds, still entailed
+    twice = [[list(x) for x in o] for c in sorted(got_cl, key=_fmt) for o in (_oriented(c)[0], _oriented(c)[0], _oriented(c)[-1])]
+    if twice and not ind.entails(_mk_ind(twice, 0)):
+        return {"key": "entails:inconsistent-with-closure", "what": "does not entail its own closure when members are repeated / mirrored"}
+    if twice and not clo.is_equivalent(_mk_ind(twice, 0)):
+        return {"key": "entails:is_equivalent:inconsistent-with-closure", "what": "closure not equivalent to itself with members repeated / mirrored"}
     if outside:
         o = outside[0]
         if ind.entails(_mk_ind(list(stmts) + [o], 2)):
